@@ -7,7 +7,7 @@
 From Coq Require Import List Arith Bool ZArith Ring Lia.
 Import ListNotations.
 From SV Require Import Base.Ops Base.Arr Base.Sums Model.Vec3 Model.Exchange Model.Kang
-  Spec.ExchangeSpec Spec.KangSpec Proofs.ExchangeL0 Proofs.KangRefine Proofs.KangInvariance
+  Spec.ExchangeSpec Spec.KangSpec Proofs.ExchangeL0 Proofs.KangRefine Proofs.KangInvariance Proofs.KangPlacement
   Properties.C19.
 
 Local Open Scope Z_scope.
@@ -38,7 +38,7 @@ Proof. constructor; unfold tle, tlt; simpl; intros; reflexivity. Qed.
 Definition kz_wall0 : @kwall Z :=
   mkKwall [(0, 0, 0)] [(1, 1, 0)] (0, 0, 1) (0, 0, 0) 1 [1%nat] [2] [-1] [0].
 Definition kz_wall1 : @kwall Z :=
-  mkKwall [(3, 4, 0); (6, 8, 0)] [(1, 1, 0); (1, 1, 0)] (0, 0, 1) (4, 6, 0) 1 [0%nat] [1] [0] [0].
+  mkKwall [(3, 4, 0); (6, 8, 0)] [(1, 1, 0); (1, 1, 0)] (0, 0, 1) (0, 0, 5) 1 [0%nat] [1] [0] [0].
 Definition kz_sc : @kscene Z := mkKscene [kz_wall0; kz_wall1] 1 1 1 40 (0, 0, 12) 1.
 
 Definition kz_F (w' s w r : nat) : Z :=
@@ -172,3 +172,24 @@ Proof. vm_compute. reflexivity. Qed.
 Example kz_translate_instance :
   kang_run (tr_scene (7, -3, 2) kz_sc) 2 = kang_run kz_sc 2.
 Proof. exact (proj1 (proj2 (proj2 (C19_translate kz_sc (7, -3, 2)))) 2%nat). Qed.
+
+(** the scene is axis-aligned in the sense of C19_cyclic (both normals are +z, the wall centres
+    differ along z only), so the theorem applies *)
+Lemma kz_cyc_ok : cyc_ok kz_sc.
+Proof.
+  assert (Hn : forall w, (w < knw kz_sc)%nat -> kw_normal (kwl kz_sc w) = (0, 0, 1)).
+  { intros w Hw. destruct w as [|[|w]]; [reflexivity|reflexivity|vm_compute in Hw; lia]. }
+  repeat split.
+  - intros w Hw. exists 2%nat. rewrite (Hn w Hw). split; [lia|].
+    intros i Hi. destruct i as [|[|[|i]]]; [reflexivity|reflexivity|reflexivity|lia].
+  - intros w Hw. exists 2%nat. rewrite (Hn w Hw). split; [lia|].
+    intros i Hi. destruct i as [|[|[|i]]]; [reflexivity|reflexivity|reflexivity|lia].
+  - intros w o Hw Ho _. rewrite (Hn w Hw), (Hn o Ho). vm_compute. discriminate.
+  - intros w o Hw Ho Hin _. exists 2%nat. split; [lia|].
+    destruct w as [|[|w]]; [| |vm_compute in Hw; lia].
+    + destruct Hin as [<-|[]]. intros i Hi. destruct i as [|[|[|i]]]; [reflexivity|reflexivity|reflexivity|lia].
+    + destruct Hin as [<-|[]]. intros i Hi. destruct i as [|[|[|i]]]; [reflexivity|reflexivity|reflexivity|lia].
+Qed.
+
+Example kz_cyclic_instance : kang_run (cyc_scene kz_sc) 2 = kang_run kz_sc 2.
+Proof. exact (proj1 (proj2 (proj2 (C19_cyclic kz_sc kz_cyc_ok))) 2%nat). Qed.
